@@ -32,8 +32,13 @@ def main():
 
     signal.signal(signal.SIGALRM, on_alarm)
     signal.signal(signal.SIGPROF, on_alarm)
+    inband = 0          # resource faults that impl itself reported (a MemoryError it caught): they count against the budget too
     with open(rpath, "ab") as out:
         for i in range(start, len(cases)):
+            if inband >= 8:
+                sys.stdout.write("WORKER-FAULT-BUDGET\n")
+                sys.stdout.flush()
+                break
             # the per-case limit counts CPU time of this process (a busy machine does not turn a slow case into a "hang");
             # wall-clock time is limited too, four times as generously
             signal.setitimer(signal.ITIMER_PROF, tmo)
@@ -60,6 +65,8 @@ def main():
             signal.setitimer(signal.ITIMER_PROF, 0)
             signal.setitimer(signal.ITIMER_REAL, 0)
             faulthandler.cancel_dump_traceback_later()
+            if isinstance(r, dict) and r.get("outcome") in ("oom", "hang", "crash"):
+                inband += 1
             pickle.dump(r, out)
             out.flush()
 
